@@ -148,6 +148,9 @@ var c04KeyStmts = []string{
 	"a[1][b[0]] += 5", "a[b[0]][b[1]] -= 1", "m[\"y\"][names[\"which\"]] *= 2", "a[b[0]][b[b[1]]] = 7", "a[b[1]][a[0][0] - 10] /= 2", "m[names[\"other\"]][\"p\"] += m[\"y\"][\"q\"]",
 	"a[len(b) - 1][b[0] - 1] %= 7", "a[b[0]][1] = a[b[1]][b[0]]", "m[\"y\"][names[\"which\"]] = a[b[0]]", "a[-b[0]][-1] += a[b[1]][0]", "x = a[b[0]][b[1]] + a[b[1]][b[0]]",
 	"a[b[0]] = [b[1], a[0][b[0]]]", "m[names[\"missing\"]][\"q\"] += 1", "a[b[5]][0] += 1", "a[1][b] += 1",
+	// keys computed from the LENGTH of the root, of another level, of another container (root and inner lengths differ)
+	"x = r[0][len(r) - 1]", "r[1][len(r)] = 9", "r[0][len(r) - 2] += 5", "x = r[len(r) - 1][len(r)]", "x = r[1][len(r[0])]", "x = r[len(r[1]) - 3][0]", "r[len(r) - 2][len(r) - 1] *= 2", "x = r[1][len(b)]",
+	"x = r[-len(r)][-len(r)]", "t = r[1]\nx = t[len(r):]", "t = r[0]\nx = t[:len(r)]",
 	// paths that run through a key / element that exists and holds nil
 	"x = nn[\"a\"][0]", "x = nn[\"l\"][0][1]", "x = nn[\"l\"][1][\"k\"][\"z\"]", "x = nn[\"zz\"][0]", "x = nn[\"a\"]", "nn[\"a\"][0] = 1", "nn[\"l\"][0][\"q\"] += 1", "x = nn[\"l\"][1][\"k\"]",
 	// the loop variable of a for-in (and a name made in its body) indexed in every iteration
@@ -158,8 +161,8 @@ var c04KeyWraps = []string{"S\n", "x0 = a[0][0]\nS\n", "for i = 0; i < 2; i = i 
 func c04ComputedKeys(i int64) c04Case {
 	wrap := c04KeyWraps[int(i)%len(c04KeyWraps)]
 	st := c04KeyStmts[int(i)/len(c04KeyWraps)]
-	text := "a = [[10, 20], [30, 40]]\nb = [1, 0]\nm = {\"y\": {\"p\": 3, \"q\": 4}, \"z\": {\"p\": 5}}\nnames = {\"which\": \"q\", \"other\": \"z\"}\nnn = {\"a\": nil, \"l\": [nil, {\"k\": nil}]}\nx = 0\n" +
-		strings.ReplaceAll(wrap, "S", st) + "p(a, b, m, x, nn)\n"
+	text := "a = [[10, 20], [30, 40]]\nb = [1, 0]\nm = {\"y\": {\"p\": 3, \"q\": 4}, \"z\": {\"p\": 5}}\nnames = {\"which\": \"q\", \"other\": \"z\"}\nnn = {\"a\": nil, \"l\": [nil, {\"k\": nil}]}\nr = [[1, 2, 3], [4, 5, 6, 7]]\nx = 0\n" +
+		strings.ReplaceAll(wrap, "S", st) + "p(a, b, m, x, nn, r)\n"
 	o := drive.Parse("computed-keys", text)
 	if o.Err != nil {
 		panic("c04: computed-keys program does not parse: " + text + ": " + o.Err.Error())
